@@ -893,6 +893,16 @@ package middleware
 //@ ensures [C03:string] plain() && rvKind(target) == 24 ==> result == nil && (calls(SST) == 1 <==> rvCanSet(target)) && (calls(SST) == 1 && data != "" ==> arg(SST,0,0) == target && arg(SST,0,1) == data)
 
 // tryUnmarshaler / readFormattedSliceFieldValue: they store through reflect only (outside code); frame contracts.
+// setDefault: the declared default is stored as it is, provided its Go type fits the target; otherwise an error and nothing stored
+//@ func (*untypedParamBinder).setDefault
+//@ watch AT = invoke (reflect.Type).AssignableTo
+//@ watch VS = call (reflect.Value).Set
+//@ watch IT = call github.com/go-openapi/errors.InvalidType
+//@ requires p != nil && p.parameter != nil && p.parameter.Default != nil && rvValid(target)
+//@ ensures [C03:defaultfits] calls(AT) == 1 && (ret(AT,0,0) ==> result == nil && calls(VS) == 1 && arg(VS,0,0) == target) && (!ret(AT,0,0) ==> result != nil && calls(VS) == 0 && calls(IT) == 1 && arg(IT,0,0) == old(p.Name))
+//@ assigns \opaque
+//@ stable comp:F!github.com/go-openapi/spec.SimpleSchema!Default
+
 //@ func (*untypedParamBinder).tryUnmarshaler
 //@ watch IMP = invoke (reflect.Type).Implements
 //@ watch IF = call (reflect.Value).Interface
@@ -900,7 +910,18 @@ package middleware
 //@ watch UT = invoke (encoding.TextUnmarshaler).UnmarshalText
 //@ ensures [C03:readonly] !rvCanSet(target) ==> !result0 && result1 == nil && calls(VS) == 0 && calls(UT) == 0
 //@ ensures [C03:plain] calls(IMP) == 1 && !ret(IMP,0,0) ==> !result0 && result1 == nil && calls(VS) == 0 && calls(UT) == 0
-//@ ensures [C03:textunmarshaler] calls(IMP) == 1 && ret(IMP,0,0) ==> result0 && (defaultValue != nil && len(data) == 0 ==> result1 == nil && calls(UT) == 0 && calls(VS) == 1) && (!(defaultValue != nil && len(data) == 0) ==> calls(UT) == 1 && (ret(UT,0,0) != nil ==> result1 == ret(UT,0,0) && calls(VS) == 0) && (ret(UT,0,0) == nil ==> result1 == nil && calls(VS) == 1 && arg(VS,0,0) == target))
+//@ watch AT = invoke (reflect.Type).AssignableTo
+//@ mayabsent AT
+//@ spec tm() := calls(IMP) == 1 && ret(IMP,0,0)
+//@ spec dflt() := defaultValue != nil && len(data) == 0
+//@ spec parsed() := calls(UT) == 1 && (ret(UT,0,0) != nil ==> result1 == ret(UT,0,0) && calls(VS) == 0) && (ret(UT,0,0) == nil ==> result1 == nil && calls(VS) == 1 && arg(VS,0,0) == target)
+// a type that parses its own text: the sent text is parsed by it; the declared default is stored as it is when its Go type
+// fits the target, parsed like a sent value when it is text (what a description document holds), refused otherwise
+//@ ensures [C03:textunmarshaler] tm() ==> result0 && calls(VS) <= 1 && calls(UT) <= 1
+//@ ensures [C03:sent] tm() && !dflt() ==> parsed() && len(arg(UT,0,0)) == len(data) && (forall k int :: 0 <= k && k < len(data) ==> before(UT, arg(UT,0,0)[k]) == data[k])
+//@ ensures [C03:defaulttyped] tm() && dflt() ==> calls(AT) == 1 && (ret(AT,0,0) ==> result1 == nil && calls(UT) == 0 && calls(VS) == 1 && arg(VS,0,0) == target)
+//@ ensures [C03:defaulttext] tm() && dflt() && !ret(AT,0,0) && typeis(defaultValue, "string") ==> parsed() && len(arg(UT,0,0)) == len(unbox(defaultValue, "string")) && (forall k int :: 0 <= k && k < len(unbox(defaultValue, "string")) ==> before(UT, arg(UT,0,0)[k]) == unbox(defaultValue, "string")[k])
+//@ ensures [C03:defaultbad] tm() && dflt() && !ret(AT,0,0) && !typeis(defaultValue, "string") ==> result1 != nil && calls(UT) == 0 && calls(VS) == 0
 //@ requires p != nil && rvValid(target) && textUnmarshalType != nil
 //@ assume after IF calls(IMP) == 1 && ret(IMP,0,0) ==> implements(ret(IF,0,0), "encoding.TextUnmarshaler")
 //@ assigns \opaque
@@ -945,6 +966,7 @@ package middleware
 //@ watch CT = call runtime.ContentType
 //@ watch HB = call runtime.HasBody
 //@ watch CO = invoke (runtime.Consumer).Consume
+//@ watch SD = call (*untypedParamBinder).setDefault
 //@ watch PMF = call (*net/http.Request).ParseMultipartForm
 //@ watch PFM = call (*net/http.Request).ParseForm
 //@ watch FF = call (*net/http.Request).FormFile
@@ -966,7 +988,7 @@ package middleware
 //@ ensures [C03:formparse] formOK() ==> (calls(PMF) == 1 <==> ret(CT,0,0) == "multipart/form-data") && (calls(PMF) == 1 ==> arg(PMF,0,0) == request && arg(PMF,0,1) == 33554432 && (ret(PMF,0,0) != nil ==> result != nil && calls(PFM) == 0 && calls(RV) == 0 && calls(FF) == 0)) && (calls(PMF) == 0 || ret(PMF,0,0) == nil ==> calls(PFM) == 1 && arg(PFM,0,0) == request && (ret(PFM,0,0) != nil ==> result != nil && calls(RV) == 0 && calls(FF) == 0))
 //@ ensures [C03:file] formOK() && calls(PFM) == 1 && ret(PFM,0,0) == nil ==> (calls(FF) == 1 <==> old(p.parameter.Type) == "file") && (calls(FF) == 1 ==> arg(FF,0,0) == request && arg(FF,0,1) == old(p.parameter.Name) && calls(RV) == 0 && (ret(FF,0,2) != nil ==> calls(VS) == 0 && (result != nil <==> old(p.parameter.Required))) && (ret(FF,0,2) == nil ==> result == nil && calls(VS) == 1 && arg(VS,0,0) == target)) && (calls(FF) == 0 ==> calls(RV) == 1)
 //@ ensures [C03:unknownloc] loc() != "query" && loc() != "header" && loc() != "path" && loc() != "formData" && loc() != "body" ==> result != nil && calls(RV) == 0 && calls(BV) == 0 && calls(CO) == 0
-//@ ensures [C03:body] loc() == "body" ==> calls(HB) == 1 && arg(HB,0,0) == request && calls(RV) == 0 && calls(BV) == 0 && (!ret(HB,0,0) ==> result == nil && calls(CO) == 0) && (ret(HB,0,0) ==> calls(CO) == 1 && recv(CO,0) == consumer && (ret(CO,0,0) == nil ==> result == nil))
+//@ ensures [C03:body] loc() == "body" ==> calls(HB) == 1 && arg(HB,0,0) == request && calls(RV) == 0 && calls(BV) == 0 && (!ret(HB,0,0) ==> calls(CO) == 0 && (old(p.parameter.Default) == nil ==> result == nil) && (old(p.parameter.Default) != nil ==> calls(SD) == 1 && arg(SD,0,1) == target && result == ret(SD,0,0))) && (ret(HB,0,0) ==> calls(CO) == 1 && recv(CO,0) == consumer && (ret(CO,0,0) == nil ==> result == nil))
 
 // (*UntypedRequestBinder).Bind: every declared parameter is bound; the validator of a parameter runs exactly when
 // its binding succeeded; every binding or validation failure is collected and answers one composite error.
